@@ -853,3 +853,44 @@ Proof.
   split; [exact drop_wf|]. split; [apply interleave_concat|]. split; [left; reflexivity|].
   split; vm_compute; reflexivity.
 Qed.
+
+(* ---------- a finite list of provider answers is no restriction ---------- *)
+(* every executed tool round consumes at least one unit of the tool-call budget … *)
+Lemma run_calls_count sid link aok calls : forall count seq evs seq' count' ex,
+  run_calls sid link aok calls count seq = (evs, seq', count', ex) ->
+  calls <> [] -> ex = false -> count + 1 <= count'.
+Proof.
+  induction calls as [|c rest IH]; intros count seq evs seq' count' ex H Hne Hex; [contradiction|].
+  cbn [run_calls] in H. destruct (MAX_TOOL_CALLS <=? count); [inv4 H; discriminate|].
+  destruct (run_calls sid link aok rest (count + 1) _) as [[[evs1 s1] c1] e1] eqn:E. inv4 H.
+  destruct rest as [|c2 rest].
+  - cbn [run_calls] in E. inversion E; subst. lia.
+  - assert (count + 1 + 1 <= count') by (eapply IH; [exact E | discriminate | reflexivity]). lia.
+Qed.
+
+(* … so the loop never looks beyond answer number MAX_TOOL_CALLS - count: whatever the provider would
+   have answered after that is irrelevant (in particular the "HTTP error once the list is exhausted"
+   convention of the model is never reached when the list is that long) *)
+Lemma agent_loop_prefix sid link aok st reqs : forall extra count seq prev fu,
+  (N.to_nat (MAX_TOOL_CALLS - count) < length reqs)%nat ->
+  agent_loop sid link aok st (reqs ++ extra) count seq prev fu = agent_loop sid link aok st reqs count seq prev fu.
+Proof.
+  induction reqs as [|r rest IH]; intros extra count seq prev fu Hlen; [cbn [length] in Hlen; lia|].
+  cbn [app agent_loop]. destruct (MAX_TOOL_CALLS <=? count) eqn:Hc; [reflexivity|].
+  destruct (fu && negb st && negb prev); [reflexivity|].
+  destruct r as [| | | | |pf|pf hid calls]; try reflexivity.
+  destruct calls as [|c calls]; [reflexivity|].
+  destruct (negb (hid || prev) && negb st); [reflexivity|].
+  destruct (run_calls sid link aok (c :: calls) count _) as [[[evs1 s2] c'] ex] eqn:E1.
+  destruct ex; [reflexivity|].
+  assert (Hc' : count + 1 <= c') by (eapply run_calls_count; [exact E1 | discriminate | reflexivity]).
+  rewrite IH; [reflexivity|]. cbn [length] in Hlen. apply N.leb_gt in Hc. lia.
+Qed.
+
+Lemma run_session_prefix g sid link aok cok reqs extra :
+  (N.to_nat MAX_TOOL_CALLS < length reqs)%nat ->
+  run_session g sid link aok (IPrompt cok (reqs ++ extra)) = run_session g sid link aok (IPrompt cok reqs).
+Proof.
+  intros H. unfold run_session. cbn [run_body]. rewrite agent_loop_prefix; [reflexivity|].
+  replace (MAX_TOOL_CALLS - 0) with MAX_TOOL_CALLS by lia. exact H.
+Qed.
